@@ -273,6 +273,45 @@ func runRotate(c *ctx) error {
 			r.queries(false)
 		}
 	}
+	// a week rotates while the server has no equipment yet; later weeks hold data; restarts
+	if c.part("directed") || c.part("everyrestart") {
+		s.WithDisk = true
+		if err := begin("rotate/emptyweek", 1000, 0); err != nil {
+			return err
+		}
+		if err := r.tick(3300); err != nil { // week 0 is archived without any device
+			return err
+		}
+		r.QueryStats("0", 0, false)
+		if err := s.device(7, "d7", 100); err != nil {
+			return err
+		}
+		r.devs = []uint32{7}
+		r.report(7, 3290, 55)
+		r.report(7, 3299, 56)
+		if err := r.restart(r.Now()); err != nil {
+			return err
+		}
+		if err := r.tick(2016 + 3201 + 150); err != nil { // week 2016 is archived with the device
+			return err
+		}
+		r.report(7, r.Now()-2, 57)
+		for k := 0; k < 2; k++ {
+			if err := r.restart(r.Now()); err != nil {
+				return err
+			}
+			r.queries(false)
+		}
+		// the newest week is an empty one as well: ban the only device, rotate, restart
+		ban(7)
+		if err := r.tick(4032 + 3201 + 150); err != nil {
+			return err
+		}
+		if err := r.restart(r.Now()); err != nil {
+			return err
+		}
+		r.queries(false)
+	}
 	// late arrivals: on fresh servers, reports reach the file out of timeslot order across the week boundary; then
 	// the window rotates and the server restarts before the new first week is archived (files of several sizes)
 	if c.part("directed") {
